@@ -171,10 +171,7 @@ def readTraj : R (Σ n : Nat, Sim (Vec Rat n)) := do
     let stream := streamOf ds.toArray
     let F := Mat.eval (wnaF d T)
     -- the k-th call of motion: one column, reading the draws k*n .. k*n + n - 1
-    let step : Nat → Vec Rat n → Vec Rat n := fun k x =>
-      let X : Mat Rat n 1 := Mat.of fun i _ => x i
-      let M := (addMotion F S false none X X ⟨stream, k * n⟩).1
-      Vec.eval (Vec.of fun i => M i ⟨0, Nat.one_pos⟩)
+    let step : Nat → Vec Rat n → Vec Rat n := fun k x => Vec.eval (addSimStep F S stream k x)
     pure ⟨n, simCtor step x0 L⟩
   | _ => failure
 
